@@ -136,12 +136,18 @@ def mk_event(tyname, parent=None):
     cls = RT.types[tyname]
     i = len(RT.eid)
     kw = {'event_created_at': BASE_TIME + dt.timedelta(milliseconds=i)}
+    selfparent = parent is None and RT.sc['types'].get(tyname, {}).get('selfparent')
     if parent is not None:
         kw['event_parent_id'] = parent.event_id
+    elif selfparent:
+        # a client-supplied cyclic parent chain (the event names itself as its parent)
+        from uuid_extensions import uuid7str
+        kw['event_id'] = uuid7str()
+        kw['event_parent_id'] = kw['event_id']
     ev = cls(**kw)
     RT.eid[ev.event_id] = i
     RT.evobj[i] = ev
-    RT.rec('new', e=i, ty=tyname, parent=(RT.eid[parent.event_id] if parent is not None else None), timeout=ev.event_timeout)
+    RT.rec('new', e=i, ty=tyname, parent=(RT.eid[parent.event_id] if parent is not None else (i if selfparent else None)), timeout=ev.event_timeout)
     return ev
 
 
